@@ -24,6 +24,8 @@ pub enum Target {
     Big255(u8),
     Big64(u8),
     Computed(u8),
+    /// label k reached from a PC read plus or minus the distance (second field: one byte past the label)
+    PcRel(u8, bool),
     /// a target that is not a constant (CALLDATALOAD(0))
     Symbolic,
 }
@@ -86,8 +88,18 @@ pub fn alphabet() -> Vec<Tk> {
     v
 }
 
-fn push_target(t: Target, out: &mut Vec<Tok>) {
+fn push_target(t: Target, defined: u8, out: &mut Vec<Tok>) {
     match t {
+        Target::PcRel(k, past) => {
+            let d = if past { 2 } else { 1 };
+            out.push(Tok::Op(op::PC));
+            if k < defined {
+                // backward: pc - distance
+                out.extend([Tok::PushDistance(k, d, false), Tok::Op(0x90), Tok::Op(op::SUB)]);
+            } else {
+                out.extend([Tok::PushDistance(k, d, true), Tok::Op(op::ADD)]);
+            }
+        }
         Target::Label(k) => out.push(Tok::PushLabel(k, U::ZERO)),
         Target::IntoPush => out.push(Tok::PushLabel(100, U::ZERO)),
         Target::AfterLabel(k) => out.push(Tok::PushLabelPlus(k, 1)),
@@ -111,7 +123,7 @@ fn push_target(t: Target, out: &mut Vec<Tok>) {
 
 fn labels_needed(t: Target) -> usize {
     match t {
-        Target::Label(k) | Target::AfterLabel(k) | Target::Big32(k) | Target::Big255(k) | Target::Big64(k) | Target::Computed(k) => {
+        Target::Label(k) | Target::AfterLabel(k) | Target::Big32(k) | Target::Big255(k) | Target::Big64(k) | Target::Computed(k) | Target::PcRel(k, _) => {
             k as usize + 1
         }
         _ => 0,
@@ -158,7 +170,7 @@ pub fn expand(seq: &[Tk]) -> Vec<Tok> {
             Tk::Dup16 => out.push(Tok::Op(0x8f)),
             Tk::Swap16 => out.push(Tok::Op(0x9f)),
             Tk::J(t) => {
-                push_target(*t, &mut out);
+                push_target(*t, label, &mut out);
                 out.push(Tok::Op(op::JUMP));
             }
             Tk::JI(c, t) => {
@@ -167,7 +179,7 @@ pub fn expand(seq: &[Tk]) -> Vec<Tok> {
                     Cond::One => Tok::Push(U::ONE),
                     Cond::Zero => Tok::Op(op::PUSH0),
                 });
-                push_target(*t, &mut out);
+                push_target(*t, label, &mut out);
                 out.push(Tok::Op(op::JUMPI));
             }
         }
@@ -245,6 +257,39 @@ pub fn dispatcher_programs() -> Vec<Vec<Tk>> {
                 }
             }
         }
+    }
+    out
+}
+
+/// Jumps whose target is computed from a PC read: all sequences up to `len` over labels, stores, halting instructions, push
+/// data and PC-relative jumps (to a label before or after the jump, and to the byte after it).
+pub fn pc_relative_programs(len: usize) -> Vec<Vec<Tk>> {
+    let alpha = [
+        Tk::L,
+        Tk::Sentinel,
+        Tk::Stop,
+        Tk::Invalid,
+        Tk::PushJumpdests,
+        Tk::J(Target::PcRel(0, false)),
+        Tk::J(Target::PcRel(1, false)),
+        Tk::J(Target::PcRel(0, true)),
+        Tk::JI(Cond::Unknown, Target::PcRel(0, false)),
+        Tk::JI(Cond::Unknown, Target::PcRel(1, false)),
+        Tk::JI(Cond::Unknown, Target::PcRel(0, true)),
+    ];
+    let mut out: Vec<Vec<Tk>> = Vec::new();
+    let mut layer: Vec<Vec<Tk>> = vec![vec![]];
+    for _ in 0..len {
+        let mut next = Vec::new();
+        for s in &layer {
+            for t in alpha {
+                let mut n = s.clone();
+                n.push(t);
+                next.push(n);
+            }
+        }
+        out.extend(next.iter().filter(|s| well_formed(s) && s.iter().any(|t| matches!(t, Tk::J(Target::PcRel(..)) | Tk::JI(_, Target::PcRel(..))))).cloned());
+        layer = next;
     }
     out
 }
@@ -465,6 +510,45 @@ impl Check for C08 {
                     Err(v) => ctx.violation(v.key, format!("{} [{:?} = {}]", v.what, seq, hex(&code)), json!({"bytes": hex(&code)})),
                 }
             }
+            for seq in pc_relative_programs(if tier.thorough() { 5 } else { 4 }) {
+                let code = assemble(&expand(&seq));
+                ctx.case(|| json!({"bytes": hex(&code)}));
+                ctx.count("programs", 1);
+                ctx.count("pc_relative_programs", 1);
+                let looping = {
+                    // a backward jump makes a loop: those are checked against the bounded-unrolling reference
+                    let mut defined = 0u8;
+                    let mut back = false;
+                    for t in &seq {
+                        match t {
+                            Tk::L => defined += 1,
+                            Tk::J(Target::PcRel(k, _)) | Tk::JI(_, Target::PcRel(k, _)) if *k < defined => back = true,
+                            _ => {}
+                        }
+                    }
+                    back
+                };
+                if looping {
+                    match check_looping(&code) {
+                        Ok(true) => {
+                            ctx.distinct("nontrivial", crate::util::h64(&code));
+                            ctx.count("with_jump_and_exact_cfg", 1);
+                        }
+                        Ok(false) => {}
+                        Err(v) => ctx.violation(v.key, format!("{} [{:?} = {}]", v.what, seq, hex(&code)), json!({"bytes": hex(&code), "looping": true})),
+                    }
+                } else {
+                    match check_code(&code) {
+                        Ok((has_jump, _)) => {
+                            if has_jump {
+                                ctx.count("with_jump_and_exact_cfg", 1);
+                                ctx.distinct("nontrivial", crate::util::h64(&code));
+                            }
+                        }
+                        Err(v) => ctx.violation(v.key, format!("{} [{:?} = {}]", v.what, seq, hex(&code)), json!({"bytes": hex(&code)})),
+                    }
+                }
+            }
             for code in drifting_target_programs() {
                 ctx.case(|| json!({"bytes": hex(&code), "looping": true}));
                 ctx.count("programs", 1);
@@ -519,7 +603,7 @@ impl Check for C08 {
                  computed constant). For each program the real VM's executed-offset set (restricted to instruction boundaries) is \
                  compared with a reference EVM control-flow exploration: always a subset of the over-approximated CFG; for loop-free \
                  programs equal to the exact reachable set on non-JUMPDEST offsets (also with iteration and fork limit 1 when no \
-                 JUMPDEST is the target of more than one conditional jump), in strict and in permissive error mode. Plus 686 two-way dispatchers whose three blocks end in every combination of nothing, STOP, RETURN, REVERT, INVALID, SELFDESTRUCT, unassigned byte; and 2 048 loops whose conditional jump takes a target from \
+                 JUMPDEST is the target of more than one conditional jump), in strict and in permissive error mode. Plus all sequences of length <= 4 (thorough 5) over 11 tokens with PC-relative jumps (JUMP / conditional JUMPI to PC plus or minus the distance to a label before or after the jump, and to the byte after the label; backward ones are loops checked against bounded unrolling). Plus 686 two-way dispatchers whose three blocks end in every combination of nothing, STOP, RETURN, REVERT, INVALID, SELFDESTRUCT, unassigned byte; and 2 048 loops whose conditional jump takes a target from \
                  the stack that advances by 1 or 2 on every iteration over tails of JUMPDEST / STOP / push data / INVALID bytes, checked \
                  against bounded-unrolling reference explorations. states = distinct programs with a jump whose \
                  exact reference CFG was validated against the implementation; transitions = programs executed",
